@@ -807,6 +807,262 @@ func (c *c28Ctx) warmCase(s *c28Seq, n int, wkeys []int) {
 	}
 }
 
+// poisonCase: failed Adds must not change what a tree accepts afterwards.
+// For the finalized tree of N hashes, start states of ONE verifier-side tree
+// (its own bucket): cold; warmed with the full proof of w; warmed with keys
+// 0..w in order (w from a small boundary set). Then ONE failing Add F:
+//   - "uncheckable": a genuine partial proof Prove(t,from), from>=1, of legal
+//     length, whose omitted upper nodes the tree does NOT know in that state,
+//   - the same with one byte flipped in each element,
+//   - the full proof Prove(t,0) with one byte flipped in each element,
+//
+// (F must fail; whether with ErrVerify or not-found is counted, not judged),
+// and a variant in which ALL failing Adds of the state are issued one after
+// the other. THEN the genuine script G on the same instance: Prove(t,0);
+// Prove(lo,0) for the start lo of the neighbourhood; Prove(k,-1) for
+// k=lo+1..hi in order (hi = max(t,w)+17); finally G's in-order part again on a
+// tree RE-OPENED on the same bucket. Oracle: every Add of G is accepted, as on
+// the control tree that got the same start state and G but never saw F.
+func (c *c28Ctx) poisonCase(s *c28Seq, n int, single bool) {
+	cs := C28Case{Seq: s.name, Kind: "poison", N: n}
+	if p := ev.Catch(func() {
+		acc, tree, _ := c.open(cs, s, n)
+		if acc == nil {
+			return
+		}
+		hd, err := acc.Finalize()
+		if err != nil {
+			c.r.Violation("finalize-fails", fmt.Sprintf("N=%d: %v", n, err), cs)
+			return
+		}
+		prover, err := hexary.NewMerkleTree(tree, hd, 1024)
+		if err != nil {
+			c.r.Violation("merkletree-open-fails", fmt.Sprintf("N=%d: %v", n, err), cs)
+			return
+		}
+		level := hexary.LevelFromLen(int64(n))
+		proofs := map[[2]int][][]byte{}
+		prove := func(t, from int) [][]byte {
+			k := [2]int{t, from}
+			if pf, ok := proofs[k]; ok {
+				return c28CloneProof(pf)
+			}
+			pf, err := prover.Prove(int64(t), from)
+			if err != nil {
+				panic(fmt.Sprintf("Prove(%d,%d): %v", t, from, err))
+			}
+			proofs[k] = pf
+			return c28CloneProof(pf)
+		}
+		type state struct {
+			mode string
+			w    int
+		}
+		states := []state{{"cold", 0}}
+		wm := map[int]bool{}
+		for _, w := range []int{0, 1, 15, 16, 17, n / 2, n - 1} {
+			if w >= 0 && w < n && !wm[w] {
+				wm[w] = true
+				states = append(states, state{"full", w}, state{"sync", w})
+			}
+		}
+		// builds a tree in the given start state on a new bucket
+		start := func(st state) (hexary.MerkleTree, *c28Bucket, bool) {
+			bk := &c28Bucket{}
+			b, err := hexary.NewMerkleTree(bk, hd, -1)
+			if err != nil {
+				panic(err)
+			}
+			switch st.mode {
+			case "full":
+				if err := b.Add(int64(st.w), s.hash[st.w], prove(st.w, 0)); err != nil {
+					c.r.Violation("valid-proof-rejected:warmup-full", fmt.Sprintf("N=%d key=%d: %v", n, st.w, err), cs)
+					return nil, nil, false
+				}
+			case "sync":
+				for k := 0; k <= st.w; k++ {
+					if err := b.Add(int64(k), s.hash[k], prove(k, -1)); err != nil {
+						c.r.Violation("valid-proof-rejected:warmup-sync", fmt.Sprintf("N=%d key=%d of 0..%d: %v", n, k, st.w, err), cs)
+						return nil, nil, false
+					}
+				}
+			}
+			return b, bk, true
+		}
+		known := func(st state, t, from int) bool {
+			if from <= 0 {
+				return true
+			}
+			switch st.mode {
+			case "cold":
+				return false
+			case "sync":
+				if t <= st.w {
+					return true
+				}
+			}
+			sh := uint((level - from + 1) * 4)
+			return st.w>>sh == t>>sh
+		}
+		type failing struct {
+			what  string
+			t     int
+			proof [][]byte
+		}
+		// the genuine script; returns the description of the first rejected Add ("" = all accepted)
+		script := func(st state, b hexary.MerkleTree, bk *c28Bucket, t int) string {
+			lo := t
+			if st.mode != "cold" && st.w < lo {
+				lo = st.w
+			}
+			lo = lo&^15 - 16
+			if lo < 0 {
+				lo = 0
+			}
+			hi := t
+			if st.mode != "cold" && st.w > hi {
+				hi = st.w
+			}
+			hi += 17
+			if hi > n-1 {
+				hi = n - 1
+			}
+			if err := b.Add(int64(t), s.hash[t], prove(t, 0)); err != nil {
+				return fmt.Sprintf("full proof of key %d: %v", t, err)
+			}
+			inOrder := func(tr hexary.MerkleTree, tag string) string {
+				if err := tr.Add(int64(lo), s.hash[lo], prove(lo, 0)); err != nil {
+					return fmt.Sprintf("%sfull proof of key %d: %v", tag, lo, err)
+				}
+				for k := lo + 1; k <= hi; k++ {
+					if err := tr.Add(int64(k), s.hash[k], prove(k, -1)); err != nil {
+						return fmt.Sprintf("%sminimal proof Prove(%d,-1) (keys %d.. in order): %v", tag, k, lo, err)
+					}
+				}
+				return ""
+			}
+			if d := inOrder(b, ""); d != "" {
+				return d
+			}
+			re, err := hexary.NewMerkleTree(bk, hd, -1)
+			if err != nil {
+				return "re-open: " + err.Error()
+			}
+			// the re-opened tree relies on what the first tree stored: minimal proofs only
+			for k := lo + 1; k <= hi; k++ {
+				if err := re.Add(int64(k), s.hash[k], prove(k, -1)); err != nil {
+					return fmt.Sprintf("tree re-opened on the same bucket: minimal proof Prove(%d,-1): %v", k, err)
+				}
+			}
+			c.add("poison_genuine_adds", int64(2+2*(hi-lo)))
+			return ""
+		}
+		for _, st := range states {
+			tm := map[int]bool{0: true, n - 1: true, st.w: true}
+			for _, d := range []int{1, 16, 256} {
+				tm[st.w-d], tm[st.w+d] = true, true
+			}
+			tm[st.w|15], tm[(st.w|15)+1], tm[(st.w|255)+1] = true, true, true
+			if st.mode == "cold" {
+				for _, k := range c28Keys(n, n <= 40) {
+					tm[k] = true
+				}
+			}
+			var targets []int
+			for t := range tm {
+				if t >= 0 && t < n {
+					targets = append(targets, t)
+				}
+			}
+			sort.Ints(targets)
+			control := map[int]string{}
+			for _, t := range targets {
+				b, bk, ok := start(st)
+				if !ok {
+					return
+				}
+				control[t] = script(st, b, bk, t)
+				if control[t] != "" {
+					cs.Key = t
+					c.r.Violation("valid-proof-rejected:genuine-script:"+st.mode, fmt.Sprintf("N=%d start %s(w=%d), no failed Add before: %s", n, st.mode, st.w, control[t]), cs)
+				}
+			}
+			var fails []failing
+			for _, t := range targets {
+				for from := 0; from <= level; from++ {
+					if level-from < c28MinProofLen(t, level) {
+						continue // not a legal-length proof
+					}
+					unknown := !known(st, t, from)
+					if from > 0 && !unknown {
+						continue // a checkable genuine partial proof: would be accepted
+					}
+					pf := prove(t, from)
+					kind := "full-proof"
+					if from > 0 {
+						kind = "partial-proof-with-unknown-upper-part"
+						fails = append(fails, failing{"uncheckable:" + kind, t, pf})
+					}
+					for e := range pf {
+						fl := c28CloneProof(pf)
+						fl[e][(t*7+e*13+st.w)%len(fl[e])] ^= 0x01 << uint((t+e)%8)
+						fails = append(fails, failing{"flipped-byte:" + kind, t, fl})
+					}
+				}
+			}
+			issue := func(b hexary.MerkleTree, f failing) bool {
+				err := b.Add(int64(f.t), s.hash[f.t], c28CloneProof(f.proof))
+				if err == nil {
+					cs.Key = f.t
+					c.r.Violation("altered-proof-accepted:"+f.what+":start-"+st.mode, fmt.Sprintf("N=%d start %s(w=%d): Add(key %d, %s) was accepted", n, st.mode, st.w, f.t, f.what), cs)
+					return false
+				}
+				if errors.Is(err, hexary.ErrVerify) {
+					c.add("poison_failed_with_ErrVerify", 1)
+				} else {
+					c.add("poison_failed_with_other_error", 1)
+				}
+				return true
+			}
+			after := func(what string, t int, b hexary.MerkleTree, bk *c28Bucket) {
+				if control[t] != "" {
+					return
+				}
+				if d := script(st, b, bk, t); d != "" {
+					cs.Key = t
+					c.r.Violation("valid-proof-rejected:after-failed-add:"+what+":start-"+st.mode, fmt.Sprintf("N=%d start %s(w=%d): after the failed Add(s) [%s] the genuine script for key %d fails (it passes on a tree that never saw them): %s", n, st.mode, st.w, what, t, d), cs)
+				}
+			}
+			if single {
+				for _, f := range fails {
+					b, bk, ok := start(st)
+					if !ok {
+						return
+					}
+					if issue(b, f) {
+						after(f.what, f.t, b, bk)
+					}
+					c.add("poison_single_failed_add_cases", 1)
+				}
+			}
+			// all failing Adds of this state one after the other, then the script for every target
+			for _, t := range targets {
+				b, bk, ok := start(st)
+				if !ok {
+					return
+				}
+				for _, f := range fails {
+					issue(b, f)
+				}
+				after("all-failing-adds-of-the-state", t, b, bk)
+				c.add("poison_all_failed_adds_cases", 1)
+			}
+		}
+	}); p != "" {
+		c.r.Violation("poison-panic", fmt.Sprintf("N=%d key %d: %s", n, cs.Key, p), cs)
+	}
+}
+
 // build runs phase 1 for a sequence: a master accumulator adds the hashes one
 // by one (its tree bucket is the shared log), a second accumulator is
 // re-opened from its own buckets before every add; both must agree with the
@@ -903,10 +1159,12 @@ func TestVerifC28(t *testing.T) {
 	maxN := r.Pick(300, 4200)
 	small := r.Pick(300, 1000) // every (N,l) pair and every key up to here
 	constN := 300
-	forkAll := r.Pick(96, 200) // every (N,l) fork pair up to here
-	warmAll := r.Pick(48, 300) // warm-up soundness cases for every N up to here (plus 272, 300 and the special N)
+	forkAll := r.Pick(96, 200)      // every (N,l) fork pair up to here
+	warmAll := r.Pick(48, 300)      // warm-up soundness cases for every N up to here (plus 272, 300 and the special N)
+	poisonAll := r.Pick(48, 300)    // failed-Add-then-genuine cases for every N up to here (plus 272, 300, special N)
+	poisonSingle := r.Pick(40, 300) // ... with one tree per single failed Add up to here (above: all failed Adds on one tree)
 	c := &c28Ctx{r: r, readd: 17, maxSmall: r.Pick(64, 300)}
-	r.Rule(fmt.Sprintf("hash sequence h_i = SHA3(i) ('distinct') for N = 0..%d and the constant sequence ('constant', positive checks only) for N = 0..%d; phase 1: header after every add of a live accumulator and of one re-opened from its buckets before every add, against the reference root; in every situation ALL header-returning entry points are compared with the reference: Len, GetMerkleHeader and Finalize in both orders and repeated, proofs of the first and last key against the finalized header, and the view of an accumulator re-opened from the buckets; phase 1 also on a live accumulator finalized after every add; phase 2 on exact copies of the buckets after N adds: 'header' every N (re-opened, also after the no-op SetLen(N)); 'proof' every N<=%d with every key, larger N with key boundaries and every 16th key: Prove(key,0) accepted by a fresh tree made from the header, and for the distinct sequence rejected with another hash, as key+1/key-1, with one byte flipped in each level, with each level dropped; keys in order with Prove(key,-1) into one tree (N<=%d and the special N); 'rewind' SetLen(l): every pair l<=N<=%d, for larger N: every l for N in {16^k-1,16^k,16^k+1,%d} and l in {0,N-1,N-15,N-16,N-17,16^k-1,16^k,16^k+1} for every N; each rewind on two copies (Finalize asked first / GetMerkleHeader asked first; for odd N+l the N-state is finalized before the rewind): immediately after SetLen(l), before any Add, all entry points incl. the re-opened view (for l=0 the re-opened view is only an observation) = reference of the prefix; SetLen(l+1) fails; re-add (all up to N for N<=%d, else %d) with all entry points after every add; proofs of keys l-1,l; second rewind to l/2 with all entry points; 'fork' (distinct sequence): every l<N<=%d and the boundary l (0,1,N-1,N-2,N-15..N-17,16^k-1..16^k+1, multiples of 16) for larger N: all entry points asked at N, SetLen(l), DIFFERENT hashes added, 3 variants (no query before reaching N again then N+1; grown to N+2 and rewound to N; queries at an intermediate length), all entry points incl. proofs of the new leaves against the reference of the forked sequence; 'warm' (distinct sequence): every N<=%d and N in {272,300, 16^k-1,16^k,16^k+1, max} x every warm-up key w (N<=%d: all keys, else boundaries and every 16th) x 2 warm-up modes (full proof of w on an empty tree / keys 0..w in order with minimal proofs) on ONE tree instance x targets t in {w, w+-1, w+-16, w+-256, ends of w's 16- and 256-block, 0, N-1} x every proof depth Prove(t,from), from=-1,0..level x EVERY proof element: one byte flipped / replaced by another key's node must be rejected, also a wrong hash; afterwards the genuine proofs with known upper part are accepted. evaluation = one case; non-trivial = distinct (sequence, kind, N, l)", maxN, constN, small, small, small, maxN, c.maxSmall, c.readd, forkAll, warmAll, small))
+	r.Rule(fmt.Sprintf("hash sequence h_i = SHA3(i) ('distinct') for N = 0..%d and the constant sequence ('constant', positive checks only) for N = 0..%d; phase 1: header after every add of a live accumulator and of one re-opened from its buckets before every add, against the reference root; in every situation ALL header-returning entry points are compared with the reference: Len, GetMerkleHeader and Finalize in both orders and repeated, proofs of the first and last key against the finalized header, and the view of an accumulator re-opened from the buckets; phase 1 also on a live accumulator finalized after every add; phase 2 on exact copies of the buckets after N adds: 'header' every N (re-opened, also after the no-op SetLen(N)); 'proof' every N<=%d with every key, larger N with key boundaries and every 16th key: Prove(key,0) accepted by a fresh tree made from the header, and for the distinct sequence rejected with another hash, as key+1/key-1, with one byte flipped in each level, with each level dropped; keys in order with Prove(key,-1) into one tree (N<=%d and the special N); 'rewind' SetLen(l): every pair l<=N<=%d, for larger N: every l for N in {16^k-1,16^k,16^k+1,%d} and l in {0,N-1,N-15,N-16,N-17,16^k-1,16^k,16^k+1} for every N; each rewind on two copies (Finalize asked first / GetMerkleHeader asked first; for odd N+l the N-state is finalized before the rewind): immediately after SetLen(l), before any Add, all entry points incl. the re-opened view (for l=0 the re-opened view is only an observation) = reference of the prefix; SetLen(l+1) fails; re-add (all up to N for N<=%d, else %d) with all entry points after every add; proofs of keys l-1,l; second rewind to l/2 with all entry points; 'fork' (distinct sequence): every l<N<=%d and the boundary l (0,1,N-1,N-2,N-15..N-17,16^k-1..16^k+1, multiples of 16) for larger N: all entry points asked at N, SetLen(l), DIFFERENT hashes added, 3 variants (no query before reaching N again then N+1; grown to N+2 and rewound to N; queries at an intermediate length), all entry points incl. proofs of the new leaves against the reference of the forked sequence; 'warm' (distinct sequence): every N<=%d and N in {272,300, 16^k-1,16^k,16^k+1, max} x every warm-up key w (N<=%d: all keys, else boundaries and every 16th) x 2 warm-up modes (full proof of w on an empty tree / keys 0..w in order with minimal proofs) on ONE tree instance x targets t in {w, w+-1, w+-16, w+-256, ends of w's 16- and 256-block, 0, N-1} x every proof depth Prove(t,from), from=-1,0..level x EVERY proof element: one byte flipped / replaced by another key's node must be rejected, also a wrong hash; afterwards the genuine proofs with known upper part are accepted; 'poison' (distinct sequence): every N<=%d and N in {272,300,special}: start states of one verifier tree {cold, full proof of w, keys 0..w in order; w in {0,1,15,16,17,N/2,N-1}} x ONE failing Add (N<=%d; for all N also ALL failing Adds in a row): every legal-length genuine partial proof Prove(t,from>=1) whose omitted upper nodes are unknown in that state, each of its elements with a flipped byte, each element of the full proof with a flipped byte (t = neighbours of w; cold: all keys for N<=40 else boundaries and every 16th) - then the genuine script on the same instance: Prove(t,0), Prove(lo,0), Prove(k,-1) for k=lo+1..hi in order, and the minimal proofs again on a tree re-opened on the same bucket; every genuine Add must be accepted exactly as on a control tree that never saw the failed Add. evaluation = one case; non-trivial = distinct (sequence, kind, N, l)", maxN, constN, small, small, small, maxN, c.maxSmall, c.readd, forkAll, warmAll, small, poisonAll, poisonSingle))
 	r.Assume("reference root: groups of 16 hashed level by level with SHA3-256 until one hash is left; a single hash is its own root", "storage: an in-memory db.Bucket of the harness that copies on Set and Get", "'rejected' means Add returns any error (ErrVerify and other errors are counted separately)")
 
 	seqs := []*c28Seq{}
@@ -932,6 +1190,8 @@ func TestVerifC28(t *testing.T) {
 				c.forkCase(s, cs.N, cs.L, cs.Key)
 			case "warm":
 				c.warmCase(s, cs.N, []int{cs.Key})
+			case "poison":
+				c.poisonCase(s, cs.N, true)
 			default:
 				c.headerCase(s, cs.N)
 			}
@@ -953,6 +1213,9 @@ func TestVerifC28(t *testing.T) {
 		for n := 0; n <= top; n++ { // small N first: the first reported violations are minimal ones
 			jobs = append(jobs, job{s: s, kind: "header", n: n})
 			jobs = append(jobs, job{s: s, kind: "proof", n: n})
+			if s.distinct && n > 0 && (n <= poisonAll || (special[n] && n <= small) || n == 272 || n == 300) {
+				jobs = append(jobs, job{s: s, kind: "poison", n: n})
+			}
 			if s.distinct && n > 0 && (n <= warmAll || special[n] || n == 272 || n == 300) {
 				wk := c28Keys(n, n <= small)
 				for len(wk) > 0 {
@@ -1032,6 +1295,10 @@ func TestVerifC28(t *testing.T) {
 		case "proof":
 			c.proofCase(j.s, j.n, j.n <= small, j.n <= small || special[j.n])
 			r.Nontrivial(fmt.Sprintf("%s/p/%d", j.s.name, j.n))
+		case "poison":
+			c.poisonCase(j.s, j.n, j.n <= poisonSingle)
+			r.Nontrivial(fmt.Sprintf("%s/x/%d", j.s.name, j.n))
+			r.Eval(1)
 		case "warm":
 			c.warmCase(j.s, j.n, j.ls)
 			for _, w := range j.ls {
@@ -1077,6 +1344,7 @@ func TestVerifC28(t *testing.T) {
 	}
 	r.Sanity(len(seqs) == 2, "a sequence could not be built")
 	r.Sanity(skipped > 0 || c.get("forks") > 0, "no fork case ran")
+	r.Sanity(skipped > 0 || (c.get("poison_single_failed_add_cases") > 0 && c.get("poison_all_failed_adds_cases") > 0 && c.get("poison_failed_with_other_error")+c.get("poison_failed_with_ErrVerify") > 0), "no failed-Add-then-genuine case ran")
 	r.Sanity(skipped > 0 || (c.get("warm_cases") > 0 && c.get("warm_genuine_accepted") > 0), "no warm-up case ran")
 	r.Sanity(c.get("full_proofs_accepted") > 0 && c.get("partial_proofs_accepted") > 0, "no proof accepted")
 	r.Sanity(c.get("rejected_with_ErrVerify") > 0, "no altered proof was rejected with ErrVerify")
